@@ -121,7 +121,7 @@ uint32_t cop_deserialize_value(const uint8_t *buf, uint32_t buf_size,
         uint32_t len;
         memcpy(&len, buf + pos, 4);
         pos += 4;
-        if (pos + len > buf_size) return 0;
+        if (len > buf_size - pos) return 0; /* pos + len can wrap in 32 bits */
         VmString *s = vm_string_new(heap, (const char *)(buf + pos), len);
         pos += len;
         *out = val_string(s);
